@@ -161,7 +161,9 @@ class ConcMk:
         assert len(vals) == n, (name, vals, n)
         if not missing and any(v is None for v in vals):
             self.ok = False
-        a = from_values([None if v is None else Fraction(v) for v in vals], "f")
+        # "inf" / "-inf": the real run gets the infinite value; to the contract it is a missing observation (the
+        # tests mask invalid numbers on entry: NaN and +-inf alike)
+        a = from_values([None if (v is None or v in ("inf", "-inf")) else Fraction(v) for v in vals], "f")
         a.is_input = True
         a.name = name
         return a
@@ -241,7 +243,7 @@ class RealMk:
     def series(self, name, n, missing=True):
         import numpy as np
 
-        a = np.array([np.nan if v is None else float(v) for v in self.values[name]], dtype=np.float64)
+        a = np.array([np.nan if v is None else float(v) for v in self.values[name]], dtype=np.float64)  # float("inf") reads the tokens
         # a grid entry may ask for the real run to receive the same numbers as an array of a narrower type
         # ("dtype": for the data series x; "dtype_<name>" for another series); the model keeps exact reals,
         # so arithmetic carried out in the narrow type shows up as a conformance mismatch
